@@ -377,6 +377,11 @@ pub fn format_function_args(
                 && (ctx.should_omit_string_parens() || ctx.should_omit_table_parens())
                 && arguments.len() == 1
                 && !matches!(call_next_node, FunctionCallNextNode::ObscureWithoutParens)
+                // Comments bound to the parentheses would be lost with them (the trailing trivia of the
+                // closing parentheses is kept below)
+                && !parentheses.tokens().0.has_leading_comments(CommentSearch::All)
+                && !parentheses.tokens().0.has_trailing_comments(CommentSearch::All)
+                && !parentheses.tokens().1.has_leading_comments(CommentSearch::All)
             {
                 let argument = arguments.iter().next().unwrap();
 
